@@ -45,6 +45,12 @@ var (
 	ErrInt64UnderflowsUint64 = errors.New("int64 underflows uint64")
 	// ErrFloat64UnderflowsUint64 is returned if when converting an float6464 to a uint64 underflow uint64
 	ErrFloat64UnderflowsUint64 = errors.New("float64 underflows uint64")
+	// ErrFloat64OverflowsUint64 is returned if when converting a float64 to a uint64 overflow uint64
+	ErrFloat64OverflowsUint64 = errors.New("float64 overflows uint64")
+	// ErrNotANumber is returned if a float value is NaN or infinite
+	ErrNotANumber = errors.New("value is not a finite number")
+	// ErrDivideByZero is returned if coins are distributed among zero parties
+	ErrDivideByZero = errors.New("divide by zero")
 )
 
 var maxDecimal decimal.Decimal
@@ -59,6 +65,9 @@ func init() {
 type Coin uint64
 
 func ParseZCN(c float64) (Coin, error) {
+	if math.IsNaN(c) || math.IsInf(c, 0) {
+		return 0, ErrNotANumber
+	}
 	d := decimal.NewFromFloat(c)
 	if d.Sign() == -1 {
 		return 0, ErrNegativeValue
@@ -116,7 +125,7 @@ func (c Coin) Float64() (float64, error) {
 // MultCoin multiplies Coin c by b, returning an error if the values overflow
 func MultCoin(c, b Coin) (Coin, error) {
 	a := c * b
-	if a != 0 && a/c != b {
+	if c != 0 && a/c != b {
 		return 0, ErrUint64MultOverflow
 	}
 	return a, nil
@@ -175,6 +184,10 @@ func DistributeCoin(c Coin, a int64) (oCur, bal Coin, err error) {
 	if err != nil {
 		return
 	}
+	if d == 0 {
+		err = ErrDivideByZero
+		return
+	}
 	oCur = c / d
 	bal = c % d
 	return
@@ -190,8 +203,14 @@ func Int64ToCoin(a int64) (Coin, error) {
 
 // Float64ToCoin converts an float64 to a uint64 Coin, returning an error if the float64 value underflows uint64
 func Float64ToCoin(a float64) (Coin, error) {
+	if math.IsNaN(a) {
+		return 0, ErrNotANumber
+	}
 	if a < 0 {
 		return 0, ErrFloat64UnderflowsUint64
+	}
+	if a >= 1<<64 {
+		return 0, ErrFloat64OverflowsUint64
 	}
 	return Coin(a), nil
 }
